@@ -130,89 +130,105 @@ theorem rearrange_eq (as ys : List ℝ) (aK f : ℝ) (h : ys.length = as.length)
   simp only [bind, Option.bind, pure] at this ⊢
   rw [this]; simp
 
-/-! ### the first-order systems handed to SciPy, orders 1–3 -/
+/-! ### the generated `_evaluate_coeffs_on_points` and the generated callbacks `func`, orders 1–3 -/
+
+/-- The generated row of `_evaluate_coeffs_on_points` (`np.zeros` + the number, resp. + the callable's value) is the
+value `a_k(x)` of the coefficient. -/
+theorem evaluateCoeffOnPoint_eq (x : ℝ) (c : Coeff ℝ) : evaluateCoeffOnPoint x c = c.at x := by
+  cases c <;> simp [evaluateCoeffOnPoint, Coeff.at]
+
+theorem evaluateCoeffsOnPoints_eq (x : ℝ) (cs : List (Coeff ℝ)) :
+    evaluateCoeffsOnPoints x cs = cs.map (fun c => c.at x) := by
+  simp [evaluateCoeffsOnPoints, evaluateCoeffOnPoint_eq]
 
 section funcs
 variable (tf : TransformFns ℝ) (fx : ℝ → ℝ)
 
-theorem odeFuncDirect_1 (c0 c1 : Coeff ℝ) (x Y0 : ℝ) :
-    odeFuncDirect [c0, c1] fx x [Y0] = some [(fx x - evalCoeff x c0 * Y0) / evalCoeff x c1] := by
-  have := rearrange_eq [evalCoeff x c0] [Y0] (evalCoeff x c1) (fx x) rfl
+theorem ivpFunc_direct_1 (c0 c1 : Coeff ℝ) (x Y0 : ℝ) :
+    ivpFunc [c0, c1] none fx x [Y0] = some [(fx x - c0.at x * Y0) / c1.at x] := by
+  have := rearrange_eq [c0.at x] [Y0] (c1.at x) (fx x) rfl
   simp only [List.cons_append, List.nil_append] at this
-  simp [odeFuncDirect, evalCoeffs, this, firstOrderRhs]
+  simp [ivpFunc, evaluateCoeffsOnPoints_eq, this]
 
-theorem odeFuncDirect_2 (c0 c1 c2 : Coeff ℝ) (x Y0 Y1 : ℝ) :
-    odeFuncDirect [c0, c1, c2] fx x [Y0, Y1]
-      = some [Y1, (fx x - (evalCoeff x c0 * Y0 + evalCoeff x c1 * Y1)) / evalCoeff x c2] := by
-  have := rearrange_eq [evalCoeff x c0, evalCoeff x c1] [Y0, Y1] (evalCoeff x c2) (fx x) rfl
+theorem ivpFunc_direct_2 (c0 c1 c2 : Coeff ℝ) (x Y0 Y1 : ℝ) :
+    ivpFunc [c0, c1, c2] none fx x [Y0, Y1]
+      = some [Y1, (fx x - (c0.at x * Y0 + c1.at x * Y1)) / c2.at x] := by
+  have := rearrange_eq [c0.at x, c1.at x] [Y0, Y1] (c2.at x) (fx x) rfl
   simp only [List.cons_append, List.nil_append] at this
-  simp [odeFuncDirect, evalCoeffs, this, firstOrderRhs]
+  simp [ivpFunc, evaluateCoeffsOnPoints_eq, this]
 
-theorem odeFuncDirect_3 (c0 c1 c2 c3 : Coeff ℝ) (x Y0 Y1 Y2 : ℝ) :
-    odeFuncDirect [c0, c1, c2, c3] fx x [Y0, Y1, Y2]
-      = some [Y1, Y2, (fx x - (evalCoeff x c0 * Y0 + (evalCoeff x c1 * Y1 + evalCoeff x c2 * Y2)))
-          / evalCoeff x c3] := by
-  have := rearrange_eq [evalCoeff x c0, evalCoeff x c1, evalCoeff x c2] [Y0, Y1, Y2] (evalCoeff x c3) (fx x) rfl
+theorem ivpFunc_direct_3 (c0 c1 c2 c3 : Coeff ℝ) (x Y0 Y1 Y2 : ℝ) :
+    ivpFunc [c0, c1, c2, c3] none fx x [Y0, Y1, Y2]
+      = some [Y1, Y2, (fx x - (c0.at x * Y0 + (c1.at x * Y1 + c2.at x * Y2))) / c3.at x] := by
+  have := rearrange_eq [c0.at x, c1.at x, c2.at x] [Y0, Y1, Y2] (c3.at x) (fx x) rfl
   simp only [List.cons_append, List.nil_append] at this
-  simp [odeFuncDirect, evalCoeffs, this, firstOrderRhs]
+  simp [ivpFunc, evaluateCoeffsOnPoints_eq, this]
 
-theorem odeFuncTransformed_1 (c0 c1 : Coeff ℝ) (r Y0 : ℝ) :
-    odeFuncTransformed [c0, c1] tf fx r [Y0]
+/-- The generated `_transform_ode_from_rtransform` at one point: the rows `coeffB` of the transformed equation with
+the coefficients and the three transform derivatives all taken at the same point. -/
+theorem transformOdeFromRtransform_eq (cs : List (Coeff ℝ)) (x : ℝ) :
+    transformOdeFromRtransform cs tf x = coeffB (cs.map (fun c => c.at x)) (tf.deriv x) (tf.deriv2 x) (tf.deriv3 x) := by
+  simp [transformOdeFromRtransform, transformOdeFromDerivs, evaluateCoeffsOnPoints_eq]
+
+theorem ivpFunc_transformed_1 (c0 c1 : Coeff ℝ) (r Y0 : ℝ) :
+    ivpFunc [c0, c1] (some tf) fx r [Y0]
       = (let x := tf.inverse r
-         let a0 := evalCoeff x c0; let a1 := evalCoeff x c1
+         let a0 := c0.at x; let a1 := c1.at x
          let d0 := tf.deriv x; let d1 := tf.deriv2 x; let d2 := tf.deriv3 x
          some [(fx x - coeffB_1_0 a0 a1 d0 d1 d2 * Y0) / coeffB_1_1 a0 a1 d0 d1 d2]) := by
   have := rearrange_eq
-    [coeffB_1_0 (evalCoeff (tf.inverse r) c0) (evalCoeff (tf.inverse r) c1) (tf.deriv (tf.inverse r))
+    [coeffB_1_0 (c0.at (tf.inverse r)) (c1.at (tf.inverse r)) (tf.deriv (tf.inverse r))
       (tf.deriv2 (tf.inverse r)) (tf.deriv3 (tf.inverse r))] [Y0]
-    (coeffB_1_1 (evalCoeff (tf.inverse r) c0) (evalCoeff (tf.inverse r) c1) (tf.deriv (tf.inverse r))
+    (coeffB_1_1 (c0.at (tf.inverse r)) (c1.at (tf.inverse r)) (tf.deriv (tf.inverse r))
       (tf.deriv2 (tf.inverse r)) (tf.deriv3 (tf.inverse r))) (fx (tf.inverse r)) rfl
   simp only [List.cons_append, List.nil_append] at this
-  simp [odeFuncTransformed, transformAndRearrange, transformOdeAt, coeffB, coeffB1, evalCoeffs, this,
-    firstOrderRhs]
+  simp [ivpFunc, transformAndRearrange, transformOdeFromRtransform_eq, coeffB, coeffB1, this]
 
-theorem odeFuncTransformed_2 (c0 c1 c2 : Coeff ℝ) (r Y0 Y1 : ℝ) :
-    odeFuncTransformed [c0, c1, c2] tf fx r [Y0, Y1]
+theorem ivpFunc_transformed_2 (c0 c1 c2 : Coeff ℝ) (r Y0 Y1 : ℝ) :
+    ivpFunc [c0, c1, c2] (some tf) fx r [Y0, Y1]
       = (let x := tf.inverse r
-         let a0 := evalCoeff x c0; let a1 := evalCoeff x c1; let a2 := evalCoeff x c2
+         let a0 := c0.at x; let a1 := c1.at x; let a2 := c2.at x
          let d0 := tf.deriv x; let d1 := tf.deriv2 x; let d2 := tf.deriv3 x
          some [Y1, (fx x - (coeffB_2_0 a0 a1 a2 d0 d1 d2 * Y0 + coeffB_2_1 a0 a1 a2 d0 d1 d2 * Y1))
             / coeffB_2_2 a0 a1 a2 d0 d1 d2]) := by
   have := rearrange_eq
-    [coeffB_2_0 (evalCoeff (tf.inverse r) c0) (evalCoeff (tf.inverse r) c1) (evalCoeff (tf.inverse r) c2)
+    [coeffB_2_0 (c0.at (tf.inverse r)) (c1.at (tf.inverse r)) (c2.at (tf.inverse r))
       (tf.deriv (tf.inverse r)) (tf.deriv2 (tf.inverse r)) (tf.deriv3 (tf.inverse r)),
-     coeffB_2_1 (evalCoeff (tf.inverse r) c0) (evalCoeff (tf.inverse r) c1) (evalCoeff (tf.inverse r) c2)
+     coeffB_2_1 (c0.at (tf.inverse r)) (c1.at (tf.inverse r)) (c2.at (tf.inverse r))
       (tf.deriv (tf.inverse r)) (tf.deriv2 (tf.inverse r)) (tf.deriv3 (tf.inverse r))] [Y0, Y1]
-    (coeffB_2_2 (evalCoeff (tf.inverse r) c0) (evalCoeff (tf.inverse r) c1) (evalCoeff (tf.inverse r) c2)
+    (coeffB_2_2 (c0.at (tf.inverse r)) (c1.at (tf.inverse r)) (c2.at (tf.inverse r))
       (tf.deriv (tf.inverse r)) (tf.deriv2 (tf.inverse r)) (tf.deriv3 (tf.inverse r))) (fx (tf.inverse r)) rfl
   simp only [List.cons_append, List.nil_append] at this
-  simp [odeFuncTransformed, transformAndRearrange, transformOdeAt, coeffB, coeffB2, evalCoeffs, this,
-    firstOrderRhs]
+  simp [ivpFunc, transformAndRearrange, transformOdeFromRtransform_eq, coeffB, coeffB2, this]
 
-theorem odeFuncTransformed_3 (c0 c1 c2 c3 : Coeff ℝ) (r Y0 Y1 Y2 : ℝ) :
-    odeFuncTransformed [c0, c1, c2, c3] tf fx r [Y0, Y1, Y2]
+theorem ivpFunc_transformed_3 (c0 c1 c2 c3 : Coeff ℝ) (r Y0 Y1 Y2 : ℝ) :
+    ivpFunc [c0, c1, c2, c3] (some tf) fx r [Y0, Y1, Y2]
       = (let x := tf.inverse r
-         let a0 := evalCoeff x c0; let a1 := evalCoeff x c1; let a2 := evalCoeff x c2
-         let a3 := evalCoeff x c3
+         let a0 := c0.at x; let a1 := c1.at x; let a2 := c2.at x
+         let a3 := c3.at x
          let d0 := tf.deriv x; let d1 := tf.deriv2 x; let d2 := tf.deriv3 x
          some [Y1, Y2, (fx x - (coeffB_3_0 a0 a1 a2 a3 d0 d1 d2 * Y0 + (coeffB_3_1 a0 a1 a2 a3 d0 d1 d2 * Y1
             + coeffB_3_2 a0 a1 a2 a3 d0 d1 d2 * Y2))) / coeffB_3_3 a0 a1 a2 a3 d0 d1 d2]) := by
   have := rearrange_eq
-    [coeffB_3_0 (evalCoeff (tf.inverse r) c0) (evalCoeff (tf.inverse r) c1) (evalCoeff (tf.inverse r) c2)
-      (evalCoeff (tf.inverse r) c3) (tf.deriv (tf.inverse r)) (tf.deriv2 (tf.inverse r)) (tf.deriv3 (tf.inverse r)),
-     coeffB_3_1 (evalCoeff (tf.inverse r) c0) (evalCoeff (tf.inverse r) c1) (evalCoeff (tf.inverse r) c2)
-      (evalCoeff (tf.inverse r) c3) (tf.deriv (tf.inverse r)) (tf.deriv2 (tf.inverse r)) (tf.deriv3 (tf.inverse r)),
-     coeffB_3_2 (evalCoeff (tf.inverse r) c0) (evalCoeff (tf.inverse r) c1) (evalCoeff (tf.inverse r) c2)
-      (evalCoeff (tf.inverse r) c3) (tf.deriv (tf.inverse r)) (tf.deriv2 (tf.inverse r)) (tf.deriv3 (tf.inverse r))]
+    [coeffB_3_0 (c0.at (tf.inverse r)) (c1.at (tf.inverse r)) (c2.at (tf.inverse r))
+      (c3.at (tf.inverse r)) (tf.deriv (tf.inverse r)) (tf.deriv2 (tf.inverse r)) (tf.deriv3 (tf.inverse r)),
+     coeffB_3_1 (c0.at (tf.inverse r)) (c1.at (tf.inverse r)) (c2.at (tf.inverse r))
+      (c3.at (tf.inverse r)) (tf.deriv (tf.inverse r)) (tf.deriv2 (tf.inverse r)) (tf.deriv3 (tf.inverse r)),
+     coeffB_3_2 (c0.at (tf.inverse r)) (c1.at (tf.inverse r)) (c2.at (tf.inverse r))
+      (c3.at (tf.inverse r)) (tf.deriv (tf.inverse r)) (tf.deriv2 (tf.inverse r)) (tf.deriv3 (tf.inverse r))]
     [Y0, Y1, Y2]
-    (coeffB_3_3 (evalCoeff (tf.inverse r) c0) (evalCoeff (tf.inverse r) c1) (evalCoeff (tf.inverse r) c2)
-      (evalCoeff (tf.inverse r) c3) (tf.deriv (tf.inverse r)) (tf.deriv2 (tf.inverse r)) (tf.deriv3 (tf.inverse r)))
+    (coeffB_3_3 (c0.at (tf.inverse r)) (c1.at (tf.inverse r)) (c2.at (tf.inverse r))
+      (c3.at (tf.inverse r)) (tf.deriv (tf.inverse r)) (tf.deriv2 (tf.inverse r)) (tf.deriv3 (tf.inverse r)))
     (fx (tf.inverse r)) rfl
   simp only [List.cons_append, List.nil_append] at this
-  simp [odeFuncTransformed, transformAndRearrange, transformOdeAt, coeffB, coeffB3, evalCoeffs, this,
-    firstOrderRhs]
+  simp [ivpFunc, transformAndRearrange, transformOdeFromRtransform_eq, coeffB, coeffB3, this]
 
 end funcs
+
+/-- `solve_ode_bvp` hands SciPy the same first-order system as `solve_ode_ivp` (the two nested `func` have the same
+generated text up to the shape plumbing `x = np.array([x])`). -/
+theorem bvpFunc_eq_ivpFunc (cs : List (Coeff ℝ)) (tf : Option (TransformFns ℝ)) (fx : ℝ → ℝ) (x : ℝ) (y : List ℝ) :
+    bvpFunc cs tf fx x y = ivpFunc cs tf fx x y := rfl
 
 /-! ### chain rule up to order 3, pointwise -/
 
@@ -249,18 +265,23 @@ open GridVerif.Gen.Ode
 
 /-! ### entries of `_derivative_transformation_matrix([tf.deriv, tf.deriv2, tf.deriv3], x, n)`, n = 1, 2, 3 -/
 
+@[simp] theorem seqOfList3_1 (a b c : ℝ) : seqOfList [a, b, c] 1 = a := rfl
+@[simp] theorem seqOfList3_2 (a b c : ℝ) : seqOfList [a, b, c] 2 = b := rfl
+@[simp] theorem seqOfList3_3 (a b c : ℝ) : seqOfList [a, b, c] 3 = c := rfl
+
 theorem derivMatrixAt_1 (T : TransformFns ℝ) (x : ℝ) : derivMatrixAt T x 1 0 0 = T.deriv x := by
-  have h := entries_of_rows_1 (derivMatrix_rows_1 (bell (seq3 (T.deriv x) (T.deriv2 x) (T.deriv3 x))))
+  have h := entries_of_rows_1 (derivMatrix_rows_1 (fun n k => bell (seqOfList [T.deriv x, T.deriv2 x, T.deriv3 x]) n k))
   simp only [List.cons.injEq, and_true] at h
-  simp only [derivMatrixAt, ← h, bell_1_1, seq3]
+  simp only [derivMatrixAt, derivativeTransformationMatrix, List.map_cons, List.map_nil, ← h, bell_1_1, seqOfList3_1]
 
 theorem derivMatrixAt_2 (T : TransformFns ℝ) (x : ℝ) :
     derivMatrixAt T x 2 0 0 = T.deriv x ∧ derivMatrixAt T x 2 0 1 = 0 ∧
     derivMatrixAt T x 2 1 0 = T.deriv2 x ∧ derivMatrixAt T x 2 1 1 = T.deriv x ^ 2 := by
-  have h := entries_of_rows_2 (derivMatrix_rows_2 (bell (seq3 (T.deriv x) (T.deriv2 x) (T.deriv3 x))))
+  have h := entries_of_rows_2 (derivMatrix_rows_2 (fun n k => bell (seqOfList [T.deriv x, T.deriv2 x, T.deriv3 x]) n k))
   simp only [List.cons.injEq, and_true] at h
   obtain ⟨⟨h00, h01⟩, h10, h11⟩ := h
-  simp only [derivMatrixAt, ← h00, ← h01, ← h10, ← h11, bell_1_1, bell_2_1, bell_2_2, seq3]
+  simp only [derivMatrixAt, derivativeTransformationMatrix, List.map_cons, List.map_nil, ← h00, ← h01, ← h10, ← h11,
+    bell_1_1, bell_2_1, bell_2_2, seqOfList3_1, seqOfList3_2]
   simp
 
 theorem derivMatrixAt_3 (T : TransformFns ℝ) (x : ℝ) :
@@ -268,11 +289,12 @@ theorem derivMatrixAt_3 (T : TransformFns ℝ) (x : ℝ) :
     derivMatrixAt T x 3 1 0 = T.deriv2 x ∧ derivMatrixAt T x 3 1 1 = T.deriv x ^ 2 ∧ derivMatrixAt T x 3 1 2 = 0 ∧
     derivMatrixAt T x 3 2 0 = T.deriv3 x ∧ derivMatrixAt T x 3 2 1 = 3 * T.deriv x * T.deriv2 x ∧
     derivMatrixAt T x 3 2 2 = T.deriv x ^ 3 := by
-  have h := entries_of_rows_3 (derivMatrix_rows_3 (bell (seq3 (T.deriv x) (T.deriv2 x) (T.deriv3 x))))
+  have h := entries_of_rows_3 (derivMatrix_rows_3 (fun n k => bell (seqOfList [T.deriv x, T.deriv2 x, T.deriv3 x]) n k))
   simp only [List.cons.injEq, and_true] at h
   obtain ⟨⟨h00, h01, h02⟩, ⟨h10, h11, h12⟩, h20, h21, h22⟩ := h
-  simp only [derivMatrixAt, ← h00, ← h01, ← h02, ← h10, ← h11, ← h12, ← h20, ← h21, ← h22, bell_1_1, bell_2_1,
-    bell_2_2, bell_3_1, bell_3_2, bell_3_3, seq3]
+  simp only [derivMatrixAt, derivativeTransformationMatrix, List.map_cons, List.map_nil, ← h00, ← h01, ← h02, ← h10,
+    ← h11, ← h12, ← h20, ← h21, ← h22, bell_1_1, bell_2_1, bell_2_2, bell_3_1, bell_3_2, bell_3_3, seqOfList3_1,
+    seqOfList3_2, seqOfList3_3]
   simp
 
 end GridVerif.Ode
